@@ -79,7 +79,7 @@ Theorem gen_increase_res_eq (rule : py_rule X py_alloc) (I : inst) (prof : py_cp
   | None => OutOfFuel
   end.
 Proof.
-  inc_tac I.
+  timeout 120 (inc_tac I).
 Qed.
 
 Theorem gen_increase_irr_eq (rule : py_rule X (list py_alloc)) (I : inst) (prof : py_cprofile SC) okw oinit stop ostep obound fuel :
@@ -91,7 +91,7 @@ Theorem gen_increase_irr_eq (rule : py_rule X (list py_alloc)) (I : inst) (prof 
   | None => OutOfFuel
   end.
 Proof.
-  inc_tac I.
+  timeout 120 (inc_tac I).
 Qed.
 End Increase.
 
@@ -113,7 +113,7 @@ Proof.
   pose proof (kws_length rules oparams Eb) as Hlen.
   change (match oparams with Some p => p | None => map (fun _ => py_no_kwargs) rules end) with (kws_or_empty rules oparams) in *.
   set (ps := kws_or_empty rules oparams) in *. clearbody ps.
-  py_norm_headers.
+  timeout 60 py_norm_headers.
   erewrite (py_for_check _ (sets_other_res true));
     [|intros p; unfold sets_other_res; py_unfold_ctrl; destruct (kw_resoluteness p) as [[|]|]; reflexivity].
   destruct (existsb (sets_other_res true) ps); [reflexivity|]. cbv beta.
@@ -142,7 +142,7 @@ Proof.
   pose proof (kws_length rules oparams Eb) as Hlen.
   change (match oparams with Some p => p | None => map (fun _ => py_no_kwargs) rules end) with (kws_or_empty rules oparams) in *.
   set (ps := kws_or_empty rules oparams) in *. clearbody ps.
-  py_norm_headers.
+  timeout 60 py_norm_headers.
   erewrite (py_for_check _ (sets_other_res false));
     [|intros p; unfold sets_other_res; py_unfold_ctrl; destruct (kw_resoluteness p) as [[|]|]; reflexivity].
   destruct (existsb (sets_other_res false) ps); [reflexivity|]. cbv beta.
